@@ -93,8 +93,8 @@ def rule_UNIT(ctx):
             for s in syms:
                 if s.startswith('sincosd(') and s.endswith('.out1'):
                     units.append((s, s[:-1] + '2'))
-                if s.startswith('sin('):
-                    units.append((s, 'cos(' + s[4:]))
+                if s.startswith('sin(') or s.startswith('sin#'):
+                    units.append((s, 'cos' + s[3:]))
             for (a, b), va, vb in found:
                 if 'tiny_' in va.show() or 'tiny_' in vb.show():
                     continue              # the degeneracy fix replaces the pair on purpose
